@@ -15,11 +15,12 @@ import (
 )
 
 type CRLRevocationChecker struct {
-	crlRepository   *crlrepository.Repository
-	crlConfig       *config.CRLConfig
-	logger          *zap.Logger
-	crlUpdateTicker *time.Ticker
-	crlUpdateStop   chan struct{}
+	crlRepository     *crlrepository.Repository
+	crlConfig         *config.CRLConfig
+	logger            *zap.Logger
+	crlUpdateTicker   *time.Ticker
+	crlUpdateStop     chan struct{}
+	crlUpdateStopOnce sync.Once
 	//time the last crl update of this checker was finished (guarded by crlUpdateMutex)
 	lastCrlUpdateFinishTime time.Time
 }
@@ -95,8 +96,7 @@ func (c *CRLRevocationChecker) Cleanup() error {
 	}
 	if c.crlUpdateStop != nil {
 		//ends the goroutine started by initCRLUpdateTicker
-		close(c.crlUpdateStop)
-		c.crlUpdateStop = nil
+		c.crlUpdateStopOnce.Do(func() { close(c.crlUpdateStop) })
 	}
 	return nil
 }
